@@ -43,6 +43,12 @@ def make_partial(f, n, ks, nest):
     k = dict((nm, ('bk', nm)) for nm in ks)
     if not nest:
         return functools.partial(f, *a, **k)
+    if nest == 'unflattened':
+        # functools does not flatten a partial object that carries attributes of its own; the outer one binds every
+        # keyword, the inner one had bound the first keyword (to another value) and the first positional
+        inner = functools.partial(f, *a[:1], **dict((nm, ('inner', nm)) for nm in list(k)[:1]))
+        inner.tag = 1
+        return functools.partial(inner, *a[1:], **k)
     # nested: first positional and first keyword bound by the inner partial
     inner = functools.partial(f, *a[:1], **dict(list(k.items())[:1]))
     return functools.partial(inner, *a[1:], **dict(list(k.items())[1:]))
@@ -149,6 +155,9 @@ def shard(tier, sh):
             if n + len(ks) >= 2 and (n >= 1 or len(ks) >= 2):
                 st.inc('states')
                 eval_case(shape, n, ks, True, st)
+            if ks and len(ks) <= 2:
+                st.inc('states')
+                eval_case(shape, n, ks, 'unflattened', st)
         if len(shape) >= 3:
             st.sample({'function': 'def f' + show(shape), 'bindings': sum(1 for _ in bindings(shape, tier))}, 2)
     return st
